@@ -11,6 +11,7 @@ for d in mutants/*/; do
     echo "$id $(basename $m .diff) $rc | $key"
   done
 done
+[ "${1:-}" = mutants-only ] && exit 0
 for p in seeded/*/*/patch.diff; do
   id=$(echo $p | cut -d/ -f2); name=$(echo $p | cut -d/ -f3)
   out=$(tools/mutate.sh $id $p quick 2>&1)
